@@ -362,7 +362,10 @@ def post_angle(ctx, call):
             cu = np.linalg.norm(np.cross(u, v)) if len(u) == 3 else abs(u[0] * v[1] - u[1] * v[0])
             return cu < 1e-9 * np.linalg.norm(u) * np.linalg.norm(v)
 
-        if type(call.exc).__name__ in ("LinearDependenceError", "NotCoplanar") and (type(call.exc).__name__ == "NotCoplanar" or any(w is not None and (w[0] == "deg" or par(w)) for _, _, w in refs)):
+        plane_points = len(args) == 3 and dim == 2 and all(isinstance(a, PointTensor) for a in args) and all(w is not None and w[0] == "vec" for _, _, w in refs)
+        if plane_points:
+            pass  # three distinct points of the plane always have an angle (0 modulo pi when they are collinear): a raise is judged
+        elif type(call.exc).__name__ in ("LinearDependenceError", "NotCoplanar") and (type(call.exc).__name__ == "NotCoplanar" or any(w is not None and (w[0] == "deg" or par(w)) for _, _, w in refs)):
             ctx.skip("angle", "coincident / skew lines (degenerate configuration)")
             return
         ctx.judge("angle", False, list(args), what=f"angle raised {type(call.exc).__name__}: {str(call.exc)[:100]}", op="angle", feat={**feat, "exc": type(call.exc).__name__})
@@ -637,6 +640,15 @@ def g_angle(ctx, rng, i):
         except Exception:
             return np.nan  # judged by the monitor
 
+    if i % 2 == 0:
+        # three distinct collinear points of the plane: the straight angle (0 modulo pi), vertex at the end or in the middle
+        a0 = gen.coords(rng, (2,), 5, "int")
+        d0 = gen.nonzero_vec(rng, 2, 3)
+        k1, k2 = int(rng.integers(1, 4)), int(rng.integers(1, 4))
+        ang(g.Point(*a0), g.Point(*(a0 + k1 * d0)), g.Point(*(a0 + (k1 + k2) * d0)))
+        ang(g.Point(*a0), g.Point(*(a0 + k1 * d0)), g.Point(*(a0 - k2 * d0)))
+        ang(g.PointCollection(np.array([np.append(a0, 1), np.append(a0 + d0, 1)])), g.PointCollection(np.array([np.append(a0 + k1 * d0, 1), np.append(a0 + 3 * d0, 1)])),
+            g.PointCollection(np.array([np.append(a0 - k2 * d0, 1), np.append(a0 + d0 + np.array([-d0[1], d0[0]]), 1)])))
     dim = 2 + i % 2
     mode = ["int", "float"][(i // 2) % 2]
     for _ in range(20):
